@@ -302,3 +302,55 @@ func c15SdkSteps(c *ctxT, b *strings.Builder) {
 	list("sdkBurnSteps", "SDK DeleteAndBurnDeposits: top-level statements in source order", btop)
 	list("sdkBurnCallback", "… the statements of the callback of its walk", bcb)
 }
+
+// c15ActivateSteps: the top-level statements of the fx keeper's ActivateVotingPeriod (x/gov/keeper/proposal.go, /repo) in
+// source order, as tags the model interprets (`activateRun`): the start is the block time, the period is the default of the
+// kind and then the custom one of the message type, the end is START + period, the proposal is stored with both and the
+// status, the inactive entry is removed, the active entry is written under the stored end.
+func c15ActivateSteps(c *ctxT, kdir string) []string {
+	fd := c.findFunc(kdir, "Keeper", "ActivateVotingPeriod")
+	if fd == nil || fd.Body == nil {
+		return []string{"other:<ActivateVotingPeriod not found>"}
+	}
+	var out []string
+	for _, st := range fd.Body.List {
+		src := squash(c.src(st))
+		if is, ok := st.(*ast.IfStmt); ok && is.Init == nil && squash(c.src(is.Cond)) == "err != nil" {
+			continue
+		}
+		switch src {
+		case "sdkCtx := sdk.UnwrapSDKContext(ctx)":
+			out = append(out, "sdkCtx")
+		case "startTime := sdkCtx.BlockHeader().Time":
+			out = append(out, "startTime=blockTime")
+		case "proposal.VotingStartTime = &startTime":
+			out = append(out, "setVotingStart")
+		case "var votingPeriod *time.Duration":
+			out = append(out, "var")
+		case "params, err := keeper.Params.Get(ctx)":
+			out = append(out, "getParams")
+		case "if proposal.Expedited { votingPeriod = params.ExpeditedVotingPeriod } else { votingPeriod = params.VotingPeriod }":
+			out = append(out, "periodByExpedited")
+		case "votingPeriod = keeper.GetCustomMsgVotingPeriod(ctx, votingPeriod, proposal)":
+			out = append(out, "customPeriod")
+		case "endTime := proposal.VotingStartTime.Add(*votingPeriod)":
+			out = append(out, "endTime=start+period")
+		case "proposal.VotingEndTime = &endTime":
+			out = append(out, "setVotingEnd")
+		case "proposal.Status = v1.StatusVotingPeriod":
+			out = append(out, "setStatusVoting")
+		case "err = keeper.SetProposal(ctx, proposal)":
+			out = append(out, "setProposal")
+		case "err = keeper.InactiveProposalsQueue.Remove(ctx, collections.Join(*proposal.DepositEndTime, proposal.Id))":
+			out = append(out, "removeInactive")
+		case "return keeper.ActiveProposalsQueue.Set(ctx, collections.Join(*proposal.VotingEndTime, proposal.Id), proposal.Id)":
+			out = append(out, "setActive:votingEnd")
+		default:
+			if len(src) > 160 {
+				src = src[:160] + "…"
+			}
+			out = append(out, "other:"+src)
+		}
+	}
+	return out
+}
